@@ -316,6 +316,20 @@ func genRay3(c *hlib.Ctx, col model3d.Collider) (*model3d.Ray, string) {
 	return &model3d.Ray{Origin: origin, Direction: dir}, class
 }
 
+// genRaySh3: genRay3 for a shape; for solids of revolution one ray in five runs exactly along the axis (the lateral
+// quadratic of Cylinder / Capsule degenerates there, a = b = 0, and the caps decide everything).
+func genRaySh3(c *hlib.Ctx, sh *shape3) (*model3d.Ray, string) {
+	r, class := genRay3(c, sh.col)
+	if sh.axis != (v3{}) && finite(sh.axis.X, sh.axis.Y, sh.axis.Z) && c.Rng.Intn(5) == 0 {
+		r.Direction = alongAxis(c, sh)
+		if i := strings.Index(class, "/"); i >= 0 {
+			class = class[:i]
+		}
+		class += "/along-axis"
+	}
+	return r, class
+}
+
 func genRay2(c *hlib.Ctx, col model2d.Collider) (*model2d.Ray, string) {
 	min, max := col.Min(), col.Max()
 	if min == max {
@@ -398,6 +412,7 @@ func run(c *hlib.Ctx) {
 	runParity(c, 3*n)
 	runExact(c, n)
 	runBits(c, n)
+	runCylAxis(c, n)
 	runBall(c, n)
 	runXfBall(c, n)
 	runQueries(c, n)
